@@ -419,17 +419,18 @@ def abandoned_rpcs(env):
     if got.get('panicked'):
         fails.append(dict(scenario='abandoned_rpcs', args={}, expected=dict(note='the scenario finishes'), observed=got))
     else:
-        a, b, c, d, m = (got.get(k) or {} for k in ('dropped_after_handler_started', 'timed_out', 'dropped_before_polled', 'dropped_while_sending', 'many_abandoned'))
+        a, b, c, d, m, q = (got.get(k) or {} for k in ('dropped_after_handler_started', 'timed_out', 'dropped_before_polled', 'dropped_while_sending', 'many_abandoned', 'abandoned_while_queued'))
 
         def prompt(x):
             return x.get('handler_started') and not x.get('handler_ran_to_completion') and x.get('handler_dropped_unfinished_after_ms') is not None
         for (name, x, ok) in [('dropped_after_handler_started', a, prompt(a)), ('timed_out', b, prompt(b) and b.get('caller_timed_out')),
                               ('dropped_before_polled', c, c.get('handler_started') is False),
                               ('dropped_while_sending', d, not d.get('handler_ran_to_completion') and (not d.get('handler_started') or d.get('handler_dropped_unfinished_after_ms') is not None)),
+                              ('abandoned_while_queued', q, q.get('listener_streams_all_held') and q.get('parked_rpcs_completed') == 4 and q.get('later_rpcs_ok_of_4') == 4 and q.get('still_connected')),
                               ('many_abandoned', m, m.get('later_rpc_ok') and m.get('handlers_that_ran_to_completion') == 0 and m.get('handlers_still_running_300ms_later') == 0 and m.get('rpc_in_flight_meanwhile_ok'))]:
             if not ok:
                 fails.append(dict(scenario='abandoned_rpcs', args=dict(phase=name), expected=dict(note='a started remote handler is dropped promptly (within the second the scenario waits) instead of running its 5 s to completion; abandoned RPCs use up no stream capacity; other RPCs in flight are not disturbed'), observed=x))
-    return dict(name='abandoned_rpcs', validates='cancellation across the connection (stream reset / STOP_SENDING in quinn, the select in the serving task), which no contract covers: 4 ways of abandoning an RPC, then 40 in a row against 4 concurrent streams', cases=45, failed=fails, ok=not fails,
+    return dict(name='abandoned_rpcs', validates='cancellation across the connection (stream reset / STOP_SENDING in quinn, the select in the serving task), which no contract covers: 4 ways of abandoning an RPC, 40 in a row against 4 concurrent streams, 1000 abandoned while waiting for a stream', cases=1045, failed=fails, ok=not fails,
                 props=['C12'], clause='when a caller abandons an RPC at any point, the remote handler, if it started, is dropped promptly instead of running to completion; any number of abandoned RPCs never exhausts stream capacity or blocks later RPCs; abandoning one RPC never affects others in flight')
 
 
